@@ -256,7 +256,7 @@ func TestC12(t *testing.T) {
 	nrun.Main(t, &nrun.Check{
 		ID: "C12", TestName: "TestC12", Plans: sscen.Plans(), KeyOf: sscen.KeyOf, Extra: mergeQ,
 		QuickTime: 65 * time.Second, ThorTime: 16 * time.Minute,
-		Rule: "part N (engine N): every order of application calls (PollRecords with a record limit, Record.Ack accept/release/reject/renew, renew-then-terminal, terminal-after-terminal, MarkAcks, FlushAcks, unacknowledged records left to the next poll and to Close), ShareFetch/ShareAcknowledge/heartbeat frame deliveries, timer ticks and injected faults (connection killed before a ShareFetch/ShareAcknowledge reaches the broker, SHARE_SESSION_NOT_FOUND / INVALID_SHARE_SESSION_EPOCH answers, connection killed after the broker handled a ShareAcknowledge) within k deviations of the default order, for one member on a plain and on a compacted partition (holes inside an acquired range), with a leader move, and with a second member joining and leaving; distinct = distinct terminal observations (records polled per member with delivery counts, acknowledgement batches seen by the broker with their outcome, callback results, what a later member still receives)" +
+		Rule: "part N (engine N): every order of application calls (PollRecords with a record limit, Record.Ack accept/release/reject/renew, renew-then-terminal, terminal-after-terminal, MarkAcks, FlushAcks, unacknowledged records left to the next poll and to Close), ShareFetch/ShareAcknowledge/heartbeat frame deliveries, timer ticks and injected faults (connection killed before a ShareFetch/ShareAcknowledge reaches the broker, SHARE_SESSION_NOT_FOUND / INVALID_SHARE_SESSION_EPOCH answers, connection killed after the broker handled a ShareAcknowledge) within k deviations of the default order, for one member on a plain and on a compacted partition (holes inside an acquired range), with a leader move, with a second member joining and leaving, and with two partitions on two brokers where one partition moves between the poll and a drain that holds a live renew next to acks the stale filter drops; distinct = distinct terminal observations (records polled per member with delivery counts, acknowledgement batches seen by the broker with their outcome, callback results, what a later member still receives)" +
 			" || part N generated family G: every ack script PollRecords(3)/actions/flush three times, idle {none, 3 s, 22 s > record lock}, Close with per-record actions {nothing, accept, release, reject, renew, renew+accept, renew+reject, accept+release(ignored)} and flush modes {none, FlushAcks, MarkAcks()+FlushAcks}: all 512 assignments to poll 1 (poll 2 fixed), all 512 to poll 2 (poll 1 fixed), all pairs across the two polls, on the plain partition, pairs and uniform polls on the compacted one, plus poll-3 actions (uniform, single record, pairs with poll 2) crossed with the idle periods (7422 scripts), each on the default schedule, thorough plus every single deviation around 56 of them; distinct = distinct terminal observations" +
 			" || part Q (in-package, pkg/kgo): every list of pending entries in insertion order (offsets 0..5, each offset at most twice, status unset/accept/release/reject/renew per record) with every ordered set of at most two disjoint gap ranges inside offsets 0..7 avoiding the entries (type gap or release), queued with appendAck/enqueueGaps, drained with drainAllShareAcks, built with buildAckRanges and turned into wire batches as shareAck does; a second space assigns every (source, session epoch) stamp out of 2x2 to each record and gap and goes through filterStaleEntries; reference = offset->type table; distinct = distinct wire outputs" +
 			" || part Q2: every merge of the user-side steps (tryAck CAS, appendAck) of every script of up to 3 (thorough 4) Ack calls over two records with the sender-side steps (drain, build+send, response handling) of two rounds; reference = the status machine of the docs; distinct = distinct request histories" +
